@@ -76,6 +76,8 @@ pub struct Registry {
     ///
     /// The contents herein is used for serlialization.
     types: BTreeMap<UntrackedSymbol<TypeId>, Type<PortableForm>>,
+    #[cfg(scale_info_verif)]
+    verif: crate::verif_hooks::RegistryTag,
 }
 
 impl Default for Registry {
@@ -90,6 +92,8 @@ impl Registry {
         Self {
             type_table: Interner::new(),
             types: BTreeMap::new(),
+            #[cfg(scale_info_verif)]
+            verif: crate::verif_hooks::RegistryTag::fresh(),
         }
     }
 
@@ -118,11 +122,15 @@ impl Registry {
     /// However, since this facility is going to be used for serialization
     /// purposes this functionality isn't needed anyway.
     pub fn register_type(&mut self, ty: &MetaType) -> UntrackedSymbol<TypeId> {
+        #[cfg(scale_info_verif)]
+        self.verif.enter(ty.type_id());
         let (inserted, symbol) = self.intern_type_id(ty.type_id());
         if inserted {
             let portable_id = ty.type_info().into_portable(self);
             self.types.insert(symbol, portable_id);
         }
+        #[cfg(scale_info_verif)]
+        self.verif.exit(ty.type_id(), symbol.id, inserted);
         symbol
     }
 
@@ -150,6 +158,9 @@ impl Registry {
 
     /// Returns an iterator over the types with their keys
     pub fn types(&self) -> impl Iterator<Item = (&UntrackedSymbol<TypeId>, &Type<PortableForm>)> {
+        #[cfg(scale_info_verif)]
+        self.verif
+            .listed(&self.types.keys().map(|k| k.id).collect::<Vec<_>>());
         self.types.iter()
     }
 }
